@@ -212,6 +212,11 @@ func (v *Val) Build(order int) interface{} {
 			out[kv.K] = l
 		}
 		return out
+	case "parr": // *[4]int: a Go array reached through a pointer (addressable)
+		a := [4]int{4, 1, 3, 2}
+		return &a
+	case "arr": // [3]string by value
+		return [3]string{"c", "a", "b"}
 	case "pptr": // **Person
 		p := &Person{Name: v.S, Age: int(v.I), Tags: []string{"t"}}
 		return &p
